@@ -147,14 +147,30 @@ pub fn opt_transform(parent_node: &Node, tag_name: &str) -> Result<Option<Transf
     }
 }
 
-/// Determines the maximum nesting depth of the elements in an XML document.
+/// Numbers that describe how expensive it is to parse an XML document.
+pub struct Complexity {
+    /// Maximum nesting depth of the elements
+    pub depth: usize,
+    /// Maximum number of attributes of a single element
+    pub attributes: usize,
+    /// Number of all namespace declarations
+    pub namespaces: usize,
+}
+
+/// Determines the nesting depth, attribute and namespace counts of an XML document.
 ///
 /// The XML parser works recursively, so XML data with extremely deep nesting
 /// must be rejected before parsing to avoid running out of stack memory.
-pub fn max_nesting_depth(xml: &str) -> usize {
+/// The parser also compares every attribute with all other attributes of its element and
+/// every namespace with all namespaces in scope, which takes forever for huge numbers.
+pub fn complexity(xml: &str) -> Complexity {
     let bytes = xml.as_bytes();
     let mut depth: usize = 0;
-    let mut max_depth: usize = 0;
+    let mut result = Complexity {
+        depth: 0,
+        attributes: 0,
+        namespaces: 0,
+    };
     let mut i = 0;
     while i < bytes.len() {
         if bytes[i] != b'<' {
@@ -177,25 +193,34 @@ pub fn max_nesting_depth(xml: &str) -> usize {
         } else {
             // Start tag: find its end, quoted attribute values may contain '>'
             let mut quote = None;
+            let mut attributes = 0;
             let mut j = i + 1;
             while j < bytes.len() {
                 match (quote, bytes[j]) {
                     (None, b'"') | (None, b'\'') => quote = Some(bytes[j]),
                     (Some(q), c) if q == c => quote = None,
                     (None, b'>') => break,
+                    (None, b'=') => attributes += 1,
+                    (None, b'x')
+                        if bytes[j - 1].is_ascii_whitespace()
+                            && bytes[j..].starts_with(b"xmlns") =>
+                    {
+                        result.namespaces += 1
+                    }
                     _ => {}
                 }
                 j += 1;
             }
+            result.attributes = result.attributes.max(attributes);
             let self_closing = j > i && j < bytes.len() && bytes[j - 1] == b'/';
             if !self_closing {
                 depth += 1;
-                max_depth = max_depth.max(depth);
+                result.depth = result.depth.max(depth);
             }
             i = j + 1;
         }
     }
-    max_depth
+    result
 }
 
 pub fn gen_string<T: Display>(tag_name: &str, value: &T) -> String {
